@@ -100,6 +100,11 @@ def opLoop (op : String) (a : List String) (st : DrvState) : Option (DrvState ×
     let ops ← (listArg ops ',').mapM parseAppOp
     let st1 := st.setLoop id { i with st := appCommit i.st ops }
     opLoop "loop.go" [id, next, fails, now] st1
+  | "loop.loadfail", [id, n] => do
+    -- transient download failures are retried by the downloader: no effect on what is delivered
+    let _ ← st.getLoop id
+    let _ ← natArg n
+    pure (st, "ok")
   | "loop.clean", [id, now] => do
     -- one run of the instance's real cleaner (cleanup enabled, both intervals zero: only the
     -- order of times matters) on the shared bucket
